@@ -346,3 +346,11 @@ func KnownFinding(id, property string) {
 
 // Note prints an informational line the driver relays.
 func Note(format string, a ...any) { fmt.Printf("NOTE: "+format+"\n", a...) }
+
+// Tier is the tier the driver runs ("quick" unless told otherwise).
+func Tier() string {
+	if t := os.Getenv("VERIF_TIER"); t != "" {
+		return t
+	}
+	return "quick"
+}
